@@ -11,7 +11,11 @@
    rotation and the answer of is_multiple_of_pi_over_2 enter as data of the placement (they are
    computed by libm / the library on the harness side).  A repetition enters as the two lists the
    library derives from it: get_offsets and get_extrema (their relation is property C11).
-   An empty box is the constructor [Inverted] (the C++ pair (DBL_MAX,DBL_MAX),(-DBL_MAX,-DBL_MAX)). *)
+   An empty box is the constructor [Inverted] (the C++ pair (DBL_MAX,DBL_MAX),(-DBL_MAX,-DBL_MAX)).
+   The model follows the tree AFTER the two fixes cd7171e (collinear fallback of convex_hull returns the two
+   extreme input points) and d7329ad (Reference::convex_hull repeats the child hull at every offset of an
+   Explicit repetition).  The earlier behaviour is kept as [fallback_old] / [convex_hull_w_old] and as the
+   [hall = false] instance of the cell functions ([cell_query_old] ...) for the regression examples. *)
 From Coq Require Import QArith List Bool ZArith NArith Lia.
 Import ListNotations.
 Local Open Scope Q_scope.
@@ -91,7 +95,8 @@ Definition corners (b : box) : list pt :=      (* cmin, cmax, (cmin.x,cmax.y), (
   end.
 
 (* ---------- repetitions as (get_offsets, get_extrema) ---------- *)
-Record rep : Type := mkRep { offs : list pt; exts : list pt }.
+(* r_explicit: repetition.type == RepetitionType::Explicit *)
+Record rep : Type := mkRep { offs : list pt; exts : list pt; r_explicit : bool }.
 
 Definition padd (o p : pt) : pt := (qadd (fst p) (fst o), qadd (snd p) (snd o)).
 
@@ -141,18 +146,23 @@ Definition xform (pl : placement) (off p : pt) : pt :=
 
 Definition zero_pt : pt := (0 # 1, 0 # 1).
 
-(* offsets used by repeat_and_transform: get_extrema, or the single zero offset *)
-Definition rat_offsets (pl : placement) : list pt :=
-  match pl_rep pl with None => [zero_pt] | Some r => exts r end.
+(* offsets used by repeat_and_transform(point_array, all_offsets):
+     if (all_offsets && repetition.type == RepetitionType::Explicit) get_offsets else get_extrema;
+   the single zero offset without repetition *)
+Definition rat_offsets (allo : bool) (pl : placement) : list pt :=
+  match pl_rep pl with
+  | None => [zero_pt]
+  | Some r => if allo && r_explicit r then offs r else exts r
+  end.
 (* all placements of the reference: get_offsets *)
 Definition all_offsets (pl : placement) : list pt :=
   match pl_rep pl with None => [zero_pt] | Some r => offs r end.
 
 (* Reference::repeat_and_transform: blocks are filled from the end, first offset last *)
-Definition rat (pl : placement) (pts : list pt) : list pt :=
+Definition rat (allo : bool) (pl : placement) (pts : list pt) : list pt :=
   match pts with
   | [] => []
-  | _ => concat (rev (map (fun off => map (xform pl off) pts) (rat_offsets pl)))
+  | _ => concat (rev (map (fun off => map (xform pl off) pts) (rat_offsets allo pl)))
   end.
 
 (* ---------- the convex_hull wrapper of utils.cpp ---------- *)
@@ -175,8 +185,8 @@ Definition collinearb (pts : list pt) : bool :=
               end
   end.
 
-(* exitcode == qh_ERRsingular:  min/max scan, then  if (min.x < max.x) { append(min); append(max); } *)
-Definition fallback (pts : list pt) : list pt :=
+(* BEFORE cd7171e: exitcode == qh_ERRsingular:  min/max scan, then  if (min.x < max.x) { append(min); append(max); } *)
+Definition fallback_old (pts : list pt) : list pt :=
   match bbox pts with
   | Box x0 y0 x1 y1 => if qlt x0 x1 then [(x0, y0); (x1, y1)] else []
   | Inverted => []
@@ -223,11 +233,14 @@ Definition cache_set (ch : cache) (n : N) (v : ginfo) : cache := (n, v) :: ch.
 Section WithHull.
   (* [chull] is gdstk::convex_hull(points, result) as a function points -> appended result *)
   Variable chull : list pt -> list pt.
+  (* [hall]: Reference::convex_hull calls repeat_and_transform(point_array, true) (current tree);
+     hall = false is the tree before d7329ad (extrema only) *)
+  Variable hall : bool.
 
   (* q = true : Cell::convex_hull(cache);  q = false : Cell::bounding_box(cache).
      The loops over reference_array inline Reference::convex_hull(points, cache) and
      Reference::bounding_box(rmin, rmax, cache). *)
-  Fixpoint cell_query (q : bool) (c : cell) (ch : cache) {struct c} : ginfo * cache :=
+  Fixpoint cell_query_g (q : bool) (c : cell) (ch : cache) {struct c} : ginfo * cache :=
     match c with
     | Cell name polys labels paths refs =>
         if q then
@@ -237,8 +250,8 @@ Section WithHull.
                | [] => (acc, ch)
                | (pl, child) :: t =>
                    let info := cache_get ch (cell_name child) in
-                   let '(ci, ch') := if g_hv info then (info, ch) else cell_query true child ch in
-                   go t (acc ++ chull (rat pl (g_hull ci))) ch'
+                   let '(ci, ch') := if g_hv info then (info, ch) else cell_query_g true child ch in
+                   go t (acc ++ chull (rat hall pl (g_hull ci))) ch'
                end) refs [] ch in
           let pts := rpts ++ poly_points polys ++ label_points labels ++ poly_points paths in
           let info := cache_get ch1 name in
@@ -259,11 +272,11 @@ Section WithHull.
                  | (pl, child) :: t =>
                      let info := cache_get ch (cell_name child) in
                      if pl_quarter pl then
-                       let '(ci, ch') := if g_bv info then (info, ch) else cell_query false child ch in
-                       go t (box_join acc (bbox (rat pl (corners (g_box ci))))) ch'
+                       let '(ci, ch') := if g_bv info then (info, ch) else cell_query_g false child ch in
+                       go t (box_join acc (bbox (rat false pl (corners (g_box ci))))) ch'
                      else
-                       let '(ci, ch') := if g_hv info then (info, ch) else cell_query true child ch in
-                       go t (box_join acc (bbox (rat pl (g_hull ci)))) ch'
+                       let '(ci, ch') := if g_hv info then (info, ch) else cell_query_g true child ch in
+                       go t (box_join acc (bbox (rat false pl (g_hull ci)))) ch'
                  end) refs b2 ch in
             let b4 := fold_left (fun acc p => box_join acc (polygon_bbox (p_pts p) (p_rep p))) paths b3 in
             let info' := mkInfo (g_hull info) b4 (g_hv info) true in
@@ -271,33 +284,59 @@ Section WithHull.
     end.
 
   (* Reference::bounding_box(min, max, cache) *)
-  Definition ref_bbox_c (pl : placement) (child : cell) (ch : cache) : box * cache :=
+  Definition ref_bbox_g (pl : placement) (child : cell) (ch : cache) : box * cache :=
     let info := cache_get ch (cell_name child) in
     if pl_quarter pl then
-      let '(ci, ch') := if g_bv info then (info, ch) else cell_query false child ch in
-      (bbox (rat pl (corners (g_box ci))), ch')
+      let '(ci, ch') := if g_bv info then (info, ch) else cell_query_g false child ch in
+      (bbox (rat false pl (corners (g_box ci))), ch')
     else
-      let '(ci, ch') := if g_hv info then (info, ch) else cell_query true child ch in
-      (bbox (rat pl (g_hull ci)), ch').
+      let '(ci, ch') := if g_hv info then (info, ch) else cell_query_g true child ch in
+      (bbox (rat false pl (g_hull ci)), ch').
 
   (* Reference::convex_hull(result, cache) *)
-  Definition ref_hull_c (pl : placement) (child : cell) (ch : cache) : list pt * cache :=
+  Definition ref_hull_g (pl : placement) (child : cell) (ch : cache) : list pt * cache :=
     let info := cache_get ch (cell_name child) in
-    let '(ci, ch') := if g_hv info then (info, ch) else cell_query true child ch in
-    (chull (rat pl (g_hull ci)), ch').
+    let '(ci, ch') := if g_hv info then (info, ch) else cell_query_g true child ch in
+    (chull (rat hall pl (g_hull ci)), ch').
 
   (* the loops of cell_query, named *)
   Fixpoint hull_refs (rs : list (placement * cell)) (acc : list pt) (ch : cache) : list pt * cache :=
     match rs with
     | [] => (acc, ch)
-    | (pl, child) :: t => let '(h, ch') := ref_hull_c pl child ch in hull_refs t (acc ++ h) ch'
+    | (pl, child) :: t => let '(h, ch') := ref_hull_g pl child ch in hull_refs t (acc ++ h) ch'
     end.
   Fixpoint box_refs (rs : list (placement * cell)) (acc : box) (ch : cache) : box * cache :=
     match rs with
     | [] => (acc, ch)
-    | (pl, child) :: t => let '(b, ch') := ref_bbox_c pl child ch in box_refs t (box_join acc b) ch'
+    | (pl, child) :: t => let '(b, ch') := ref_bbox_g pl child ch in box_refs t (box_join acc b) ch'
     end.
 End WithHull.
+
+(* the current tree *)
+Definition cell_query (chull : list pt -> list pt) := cell_query_g chull true.
+Definition ref_bbox_c (chull : list pt -> list pt) := ref_bbox_g chull true.
+Definition ref_hull_c (chull : list pt -> list pt) := ref_hull_g chull true.
+(* before d7329ad *)
+Definition cell_query_old (chull : list pt -> list pt) := cell_query_g chull false.
+Definition ref_bbox_old (chull : list pt -> list pt) := ref_bbox_g chull false.
+Definition ref_hull_old (chull : list pt -> list pt) := ref_hull_g chull false.
+
+(* exitcode == qh_ERRsingular (collinear input): the two extreme input points in lexicographic order
+     Vec2 lo = *p, hi = *p;
+     for (...) { if (p->x < lo.x || (p->x == lo.x && p->y < lo.y)) lo = *p;
+                 if (p->x > hi.x || (p->x == hi.x && p->y > hi.y)) hi = *p; }
+     result.append(lo);  if (hi.x != lo.x || hi.y != lo.y) result.append(hi); *)
+Definition pt_ltb (a b : pt) : bool :=
+  match qcmp (fst a) (fst b) with Lt => true | Gt => false | Eq => qlt (snd a) (snd b) end.
+Definition lex_min (a b : pt) : pt := if pt_ltb b a then b else a.
+Definition lex_max (a b : pt) : pt := if pt_ltb a b then b else a.
+Definition fallback (pts : list pt) : list pt :=
+  match pts with
+  | [] => []
+  | a :: t => let lo := fold_left lex_min t a in
+              let hi := fold_left lex_max t a in
+              if pt_eqb lo hi then [lo] else [lo; hi]
+  end.
 
 (* gdstk::convex_hull:  count < 4: the points themselves;  qhull ok: its vertices;  qh_ERRsingular: the
    fallback;  any other qhull error ("the least we can do"): the points themselves.
@@ -309,11 +348,15 @@ Definition convex_hull_w (hull : list pt -> list pt) (pts : list pt) : list pt :
   else if same_x pts then pts
   else if collinearb pts then fallback pts
   else hull pts.
+(* before cd7171e *)
+Definition convex_hull_w_old (hull : list pt -> list pt) (pts : list pt) : list pt :=
+  if Nat.ltb (length pts) 4 then pts
+  else if same_x pts then pts
+  else if collinearb pts then fallback_old pts
+  else hull pts.
 
 (* ---------- a concrete exact hull (Andrew's monotone chain, strict turns) standing in for qhull in
    the correspondence run ---------- *)
-Definition pt_ltb (a b : pt) : bool :=
-  match qcmp (fst a) (fst b) with Lt => true | Gt => false | Eq => qlt (snd a) (snd b) end.
 Fixpoint insert_pt (p : pt) (l : list pt) : list pt :=
   match l with
   | [] => [p]
@@ -390,20 +433,3 @@ Definition canon_pts (l : list pt) : list zpt :=
   let s := sort_zpts (map round_pt l) in
   let h := zhull s in
   sort_zpts (zprune (length h) h).
-
-(* ---------- the proposed repair of the collinear fallback (F10): return the two extreme INPUT points
-   (lexicographic minimum and maximum) instead of the corners of the bounding box ---------- *)
-Definition lex_min (a b : pt) : pt := if pt_ltb b a then b else a.
-Definition lex_max (a b : pt) : pt := if pt_ltb a b then b else a.
-Definition fallback_fixed (pts : list pt) : list pt :=
-  match pts with
-  | [] => []
-  | a :: t => let lo := fold_left lex_min t a in
-              let hi := fold_left lex_max t a in
-              if pt_eqb lo hi then [lo] else [lo; hi]
-  end.
-Definition convex_hull_w_fixed (hull : list pt -> list pt) (pts : list pt) : list pt :=
-  if Nat.ltb (length pts) 4 then pts
-  else if same_x pts then pts
-  else if collinearb pts then fallback_fixed pts
-  else hull pts.
